@@ -133,10 +133,60 @@ pub fn run(ctx: &Ctx) -> Report {
             acc
         })
         .reduce(Acc::default, |a, b| a.merge(b));
+    // large fingerprinted messages (FINGERPRINT starting at 65 516 .. 65 544 and around 256 / 4 096 /
+    // 32 768): builder value, acceptance of the valid message, and a stated subset of corruptions —
+    // every bit of the header and of the CRC value, one bit in every 509th byte, every byte value in
+    // the length field and the CRC value, the alternative CRC values
+    let mut acc = acc;
+    let big_fp_offsets: Vec<usize> = (65_516..=65_544).step_by(4).chain([252usize, 256, 4092, 4096, 32_764, 32_768]).collect();
+    let big: Vec<Vec<u8>> = big_fp_offsets
+        .iter()
+        .flat_map(|off| {
+            let mut v = Vec::new();
+            for class in [0u8, 3] {
+                let fill = off - 20 - 4;
+                let mut bld = real::builder(class, 0x0FFE, ((1u128 << 95) | 5) & ((1u128 << 96) - 1));
+                let val: Vec<u8> = (0..fill).map(|i| (i * 31 % 251) as u8).collect();
+                if bld.add_raw_attribute(stun_types::attribute::RawAttribute::new(0x8032.into(), &val)).is_ok() && bld.add_fingerprint().is_ok() {
+                    v.push(bld.build());
+                }
+            }
+            v
+        })
+        .collect();
+    let acc_big = big
+        .par_iter()
+        .fold(Acc::default, |mut a, m| {
+            a.nontrivial += 1;
+            judge_guarded(judge, &Case::new("builder_value", m.clone()), &mut a);
+            let n = m.len();
+            let mut positions: Vec<usize> = (0..20).collect();
+            positions.extend((20..n - 8).step_by(509));
+            positions.extend(n - 12..n);
+            for p in positions {
+                for bit in 0..8 {
+                    let mut b = m.clone();
+                    b[p] ^= 1 << bit;
+                    judge_guarded(judge, &Case::new("mutant", b).text(&["bitflip-large"]), &mut a);
+                }
+            }
+            for p in [2usize, 3, n - 4, n - 3, n - 2, n - 1] {
+                for v in 0..=255u8 {
+                    if v != m[p] {
+                        let mut b = m.clone();
+                        b[p] = v;
+                        judge_guarded(judge, &Case::new("mutant", b).text(&["bytesub-large"]), &mut a);
+                    }
+                }
+            }
+            a
+        })
+        .reduce(Acc::default, |a, b| a.merge(b));
+    acc = acc.merge(acc_big);
     Report {
         acc,
         exhaustive: true,
-        rule: format!("8 bodies (one of ~300 bytes; thorough: one more of ~1150 bytes) x 4 sealing combinations ending in FINGERPRINT x 4 classes, built by the real builder; on each: the builder's CRC value vs the reference relation; every single-byte substitution (255 per byte, includes all single-bit flips); every burst of width 2..=32 at every start bit with both end bits set (all interior patterns up to width {full_w}, 3 shapes above); ~20 plausible alternative CRC values (byte-swapped, complemented, without the XOR constant, rotated, over other ranges or length fields); distinct_nontrivial = fingerprinted messages"),
+        rule: format!("8 bodies (one of ~300 bytes; thorough: one more of ~1150 bytes) x 4 sealing combinations ending in FINGERPRINT x 4 classes, built by the real builder; on each: the builder's CRC value vs the reference relation; every single-byte substitution (255 per byte, includes all single-bit flips); every burst of width 2..=32 at every start bit with both end bits set (all interior patterns up to width {full_w}, 3 shapes above); ~20 plausible alternative CRC values (byte-swapped, complemented, without the XOR constant, rotated, over other ranges or length fields); large messages with the FINGERPRINT starting at 65516..=65544 and around 256 / 4096 / 32768 x 2 classes with a stated subset of corruptions (every bit of the header, of the last 12 bytes and of every 509th byte, every value of the length-field and CRC bytes); distinct_nontrivial = fingerprinted messages"),
         bounds: json!({"messages": n_msgs, "burst_exhaustive_width": full_w, "burst_max_width": 32}),
         assumptions: vec!["mutants the reference decoder accepts (FINGERPRINT dissolved into other well-formed attributes) fall under C02, not C09".into()],
         ..Default::default()
